@@ -358,7 +358,7 @@ def compile_corpus(w, rep, tier):
     for prop in (['C01'] if tier == 'quick' else ['C01', 'C05', 'C06']):
         dd += cr.batch(prop, 'quick', sd)
     seen = set()
-    dd = [d for d in dd if not (d['id'] in seen or seen.add(d['id']))]
+    dd = [d for d in dd if not d.get('group') and not (d['id'] in seen or seen.add(d['id']))]
     droot = pl.make_scratch(w, dd, 'c04decl')
     g = pl.generate_all(cli, droot, dd)
     okd = [d['id'] for d in dd if g[d['id']][0] == 0]
